@@ -201,6 +201,16 @@ func c06Scenarios(tier string) []e1lib.Scenario {
 					c.Stage, c.Stop = st, -1
 					add(c)
 				}
+				for _, mode := range []string{"lift", "try"} { // failing visitors: all masks for k<=2, every element failing beyond
+					for m := 1; m < 1<<k; m++ {
+						if k > 2 && m != 1<<k-1 {
+							continue
+						}
+						c := base
+						c.Stage, c.Stop, c.Mode, c.Mask = "foreach", -1, mode, m<<1
+						add(c)
+					}
+				}
 				for _, s := range []int{-1, 0} {
 					c := base
 					c.Stage, c.Stop = "fold", s
